@@ -215,7 +215,7 @@ theorem posToLineCol_spec (s : List Char) (pos : Nat) :
       have := hb.2.2 k (by omega) hk1; omega
 
 
-theorem no_nl_between (s : List Char) (p q : Nat) (hpq : p ≤ q)
+theorem no_nl_between (s : List Char) (p q : Nat) (_hpq : p ≤ q)
     (hc : (s.take p).count '\n' = (s.take q).count '\n') : ∀ i, p ≤ i → i < q → s[i]? ≠ some '\n' := by
   intro i hi1 hi2 hnl
   rw [← lineEnds_count, ← lineEnds_count] at hc
